@@ -1211,6 +1211,10 @@ func (e *Engine) execInstr(fc *fnCtx, b *ssa.BasicBlock, st *State, ins ssa.Inst
 		}
 		e.addObl(fc.fn, "nilmap-write", e.srcText(x.Pos(), "index"), x.Pos(), st.Reach, "(not (= "+mv.T+" 0))")
 		e.mapStore(st, m, mv.T, k.T, v.T)
+		if fc.contract != nil && fc.contract.HintMapLen {
+			// a map that has just received an entry is not empty
+			e.assume(st, "(> "+e.mapLenTerm(st, m, mv.T)+" 0)")
+		}
 	case *ssa.Range:
 		xv := e.val(fc, x.X)
 		if m, ok := x.X.Type().Underlying().(*types.Map); ok {
